@@ -1,18 +1,81 @@
-// probe (temporary): relaxed mailbox reorder under back-pressure
+// c06: drives the message links of the runtime from ONE driver thread over loopback sockets / Go channels.
+//
+//	kind "tcp"     resources.NewTCPMailboxes: one local mailbox (receiver) and nsend remote handles (senders), each its own Mailboxes/IncMap
+//	kind "relaxed" resources.NewRelaxedMailboxes, same shape
+//	kind "chan"    one Go channel of capacity cap read through resources.InputChan (or raftkvs.CustomInChan when "custom");
+//	               sender i is an OutputChan ("out") or plain Go code writing to the channel ("prod")
+//
+// Input (stdin), one JSON case per line:
+//
+//	{"id":1,"kind":"tcp","nsend":2,"cap":1,"read_ms":20,"write_ms":40,"dial_ms":100,"custom":false,"senders":["out","prod"],
+//	 "ops":[["w",0,1001],["pc",0],["c",0],["a",0],["r"],["rc"],["ra"],["len"],["waitq",1],["p",1,2001],["big",0,5]]}
+//
+// Output: {"id":1,"res":[{"st":"ok|abort|tick|pending|full|skip|hang|panic:..","v":..}],"commit_resend":false,"err":""}
 package main
 
 import (
+	"bufio"
+	"bytes"
+	"encoding/json"
 	"fmt"
-	"io"
 	"log"
 	"net"
+	"os"
 	"strings"
 	"time"
 
 	"github.com/DistCompiler/pgo/distsys"
 	"github.com/DistCompiler/pgo/distsys/resources"
 	"github.com/DistCompiler/pgo/distsys/tla"
+	"github.com/DistCompiler/pgo/systems/raftkvs"
 )
+
+type kase struct {
+	ID      int             `json:"id"`
+	Kind    string          `json:"kind"`
+	NSend   int             `json:"nsend"`
+	Cap     int             `json:"cap"`
+	ReadMs  float64         `json:"read_ms"`
+	WriteMs float64         `json:"write_ms"`
+	DialMs  float64         `json:"dial_ms"`
+	Custom  bool            `json:"custom"`
+	Senders []string        `json:"senders"`
+	Ops     [][]interface{} `json:"ops"`
+}
+
+type opRes struct {
+	St string      `json:"st"`
+	V  interface{} `json:"v"`
+}
+
+type result struct {
+	ID           int     `json:"id"`
+	Res          []opRes `json:"res"`
+	CommitResend bool    `json:"commit_resend"`
+	Err          string  `json:"err"`
+}
+
+const hangDur = 6 * time.Second
+
+func ms(x float64) time.Duration { return time.Duration(x * float64(time.Millisecond)) }
+
+func withDeadline(f func() opRes) opRes {
+	ch := make(chan opRes, 1)
+	go func() {
+		defer func() {
+			if r := recover(); r != nil {
+				ch <- opRes{St: fmt.Sprintf("panic:%v", r)}
+			}
+		}()
+		ch <- f()
+	}()
+	select {
+	case r := <-ch:
+		return r
+	case <-time.After(hangDur):
+		return opRes{St: "hang"}
+	}
+}
 
 func freeAddr() string {
 	l, err := net.Listen("tcp", "127.0.0.1:0")
@@ -24,52 +87,392 @@ func freeAddr() string {
 	return a
 }
 
-func main() {
-	log.SetOutput(io.Discard)
-	addr := freeAddr()
-	opts := []resources.MailboxesOption{resources.WithMailboxesReceiveChanSize(1), resources.WithMailboxesWriteTimeout(50 * time.Millisecond),
-		resources.WithMailboxesReadTimeout(50 * time.Millisecond), resources.WithMailboxesDialTimeout(50 * time.Millisecond)}
-	recvBox := resources.NewRelaxedMailboxes(func(tla.Value) (resources.MailboxKind, string) { return resources.MailboxesLocal, addr }, opts...)
-	sendBox := resources.NewRelaxedMailboxes(func(tla.Value) (resources.MailboxKind, string) { return resources.MailboxesRemote, addr }, opts...)
+// a message: number, or (for the large-value cases) a pair <<number, padding>>
+func mkMsg(n int, padKB int) tla.Value {
+	if padKB == 0 {
+		return tla.MakeNumber(int32(n))
+	}
+	return tla.MakeTuple(tla.MakeNumber(int32(n)), tla.MakeString(strings.Repeat("x", padKB*1024)))
+}
+
+func msgNum(v tla.Value) interface{} {
+	v = v.StripVClock()
+	if v.IsNumber() {
+		return int(v.AsNumber())
+	}
+	if v.IsTuple() && v.AsTuple().Len() == 2 {
+		return int(v.AsTuple().Get(0).AsNumber())
+	}
+	if v.IsBool() {
+		return fmt.Sprintf("bool:%v", v.AsBool())
+	}
+	return fmt.Sprintf("?%v", v)
+}
+
+func isAbort(err error) bool { return err == distsys.ErrCriticalSectionAborted }
+
+type party struct {
+	top  distsys.ArchetypeResource // what PreCommit / Commit / Abort are called on (the IncMap, or the channel resource)
+	leaf func() (distsys.ArchetypeResource, error)
+	// OutputChan commit in flight
+	commitCh chan struct{}
+	// what MPCalContext would allow next: "" (nothing written) | "written" | "pcok"
+	state string
+}
+
+// what MPCalContext.abort() does after a resource operation returned ErrCriticalSectionAborted
+func (p *party) abortNow(iface distsys.ArchetypeInterface) {
+	if p.top != nil {
+		if ch := p.top.Abort(iface); ch != nil {
+			<-ch
+		}
+	}
+	p.state = ""
+}
+
+func waitCh(ch chan struct{}, d time.Duration) bool {
+	if ch == nil {
+		return true
+	}
+	select {
+	case <-ch:
+		return true
+	case <-time.After(d):
+		return false
+	}
+}
+
+func runCase(k kase) (out result) {
+	out.ID = k.ID
+	var logBuf bytes.Buffer
+	log.SetOutput(&logBuf)
+	defer func() {
+		if r := recover(); r != nil {
+			out.Err = fmt.Sprintf("harness panic: %v", r)
+		}
+		if strings.Contains(logBuf.String(), "network error during commit") {
+			out.CommitResend = true
+		}
+	}()
 	iface := distsys.NewMPCalContextWithoutArchetype().IFace()
 	idx := tla.MakeNumber(1)
-	rres, _ := recvBox.Index(iface, idx)
-	sres, _ := sendBox.Index(iface, idx)
-	pad := strings.Repeat("x", 256*1024)
-	var sent []int
-	failedAt := -1
-	for i := 0; i < 200; i++ {
-		v := tla.MakeTuple(tla.MakeNumber(int32(i)), tla.MakeString(pad))
-		err := sres.WriteValue(iface, v)
+	var recv party
+	var recvLeaf distsys.ArchetypeResource
+	var lenRes distsys.ArchetypeResource
+	senders := make([]*party, k.NSend)
+	var goCh chan tla.Value
+	var closers []func()
+	switch k.Kind {
+	case "tcp", "relaxed":
+		addr := freeAddr()
+		opts := []resources.MailboxesOption{resources.WithMailboxesReceiveChanSize(k.Cap), resources.WithMailboxesReadTimeout(ms(k.ReadMs)),
+			resources.WithMailboxesWriteTimeout(ms(k.WriteMs)), resources.WithMailboxesDialTimeout(ms(k.DialMs))}
+		mk := resources.NewTCPMailboxes
+		if k.Kind == "relaxed" {
+			mk = resources.NewRelaxedMailboxes
+		}
+		rbox := mk(func(tla.Value) (resources.MailboxKind, string) { return resources.MailboxesLocal, addr }, opts...)
+		var err error
+		recvLeaf, err = rbox.Index(iface, idx) // creates the listener
 		if err != nil {
-			// section aborts (nothing sent), retry the same value once
-			if ch := sres.Abort(iface); ch != nil {
-				<-ch
+			out.Err = err.Error()
+			return
+		}
+		if ch := rbox.Commit(iface); ch != nil {
+			<-ch
+		}
+		recv = party{top: rbox, leaf: func() (distsys.ArchetypeResource, error) { return rbox.Index(iface, idx) }}
+		lenBox := resources.NewMailboxesLength(rbox)
+		lenRes = lenBox
+		for i := range senders {
+			sbox := mk(func(tla.Value) (resources.MailboxKind, string) { return resources.MailboxesRemote, addr }, opts...)
+			senders[i] = &party{top: sbox, leaf: func() (distsys.ArchetypeResource, error) { return sbox.Index(iface, idx) }}
+			closers = append(closers, func() { sbox.Close() })
+		}
+		closers = append(closers, func() {
+			// tcpMailboxesLocal.Close sleeps 500 ms; do not wait for it
+			go rbox.Close()
+		})
+	case "chan":
+		goCh = make(chan tla.Value, k.Cap)
+		var in distsys.ArchetypeResource
+		if k.Custom {
+			in = raftkvs.NewCustomInChan(goCh, ms(k.ReadMs))
+		} else {
+			in = resources.NewInputChan(goCh, resources.WithInputChanReadTimeout(ms(k.ReadMs)))
+		}
+		recvLeaf = in
+		recv = party{top: in, leaf: func() (distsys.ArchetypeResource, error) { return in, nil }}
+		for i := range senders {
+			if k.Senders[i] == "out" {
+				o := resources.NewOutputChan(goCh)
+				senders[i] = &party{top: o, leaf: func() (distsys.ArchetypeResource, error) { return o, nil }}
+			} else {
+				senders[i] = &party{}
 			}
-			failedAt = i
-			err = sres.WriteValue(iface, v)
-			if err != nil {
-				fmt.Println("retry failed too", err)
+		}
+	default:
+		out.Err = "bad kind"
+		return
+	}
+	defer func() {
+		for _, c := range closers {
+			c()
+		}
+	}()
+	hung := false
+	for _, op := range k.Ops {
+		if hung {
+			out.Res = append(out.Res, opRes{St: "skip"})
+			continue
+		}
+		name := op[0].(string)
+		var r opRes
+		if name == "w" || name == "c" || name == "a" {
+			// an OutputChan commit still in flight: MPCalContext would still be inside commit(); give it a moment
+			if sp := senders[int(op[1].(float64))]; sp.commitCh != nil && waitCh(sp.commitCh, 30*time.Millisecond) {
+				sp.commitCh = nil
+			}
+		}
+		switch name {
+		case "fill": // sections of one large value each, until something aborts: [["fill", s, first, count, padKB]]
+			s := senders[int(op[1].(float64))]
+			first, count, pad := int(op[2].(float64)), int(op[3].(float64)), int(op[4].(float64))
+			var log [][]interface{}
+			r = withDeadline(func() opRes {
+				for i := first; i < first+count; i++ {
+					leaf, err := s.leaf()
+					if err != nil {
+						return opRes{St: "err:" + err.Error()}
+					}
+					if err = leaf.WriteValue(iface, mkMsg(i, pad)); err != nil {
+						if !isAbort(err) {
+							return opRes{St: "err:" + err.Error()}
+						}
+						s.abortNow(iface)
+						log = append(log, []interface{}{i, "wabort"})
+						break
+					}
+					if ch := s.top.PreCommit(iface); ch != nil {
+						if err = <-ch; err != nil {
+							if !isAbort(err) {
+								return opRes{St: "err:" + err.Error()}
+							}
+							s.abortNow(iface)
+							log = append(log, []interface{}{i, "pcabort"})
+							break
+						}
+					}
+					if ch := s.top.Commit(iface); ch != nil {
+						<-ch
+					}
+					log = append(log, []interface{}{i, "ok"})
+				}
+				return opRes{St: "ok", V: log}
+			})
+		case "w", "big": // WriteValue on sender s
+			s := senders[int(op[1].(float64))]
+			n := int(op[2].(float64))
+			pad := 0
+			if name == "big" {
+				pad = int(op[3].(float64))
+			}
+			if s.commitCh != nil {
+				r = opRes{St: "skip"}
 				break
 			}
-			sres.Commit(iface)
-			sent = append(sent, i)
-			break
+			r = withDeadline(func() opRes {
+				leaf, err := s.leaf()
+				if err != nil {
+					return opRes{St: "err:" + err.Error()}
+				}
+				err = leaf.WriteValue(iface, mkMsg(n, pad))
+				if err == nil {
+					s.state = "written"
+					return opRes{St: "ok"}
+				}
+				if isAbort(err) {
+					s.abortNow(iface)
+					return opRes{St: "abort"}
+				}
+				return opRes{St: "err:" + err.Error()}
+			})
+		case "pc":
+			s := senders[int(op[1].(float64))]
+			if s.state != "written" {
+				r = opRes{St: "skip"}
+				break
+			}
+			r = withDeadline(func() opRes {
+				ch := s.top.PreCommit(iface)
+				var err error
+				if ch != nil {
+					err = <-ch
+				}
+				if err == nil {
+					s.state = "pcok"
+					return opRes{St: "ok"}
+				}
+				if isAbort(err) {
+					s.abortNow(iface)
+					return opRes{St: "abort"}
+				}
+				return opRes{St: "err:" + err.Error()}
+			})
+		case "c": // Commit; an OutputChan commit may stay pending while the channel is full
+			s := senders[int(op[1].(float64))]
+			need := "pcok"
+			if k.Kind != "tcp" {
+				need = "written"
+			}
+			if s.commitCh != nil || s.state != need {
+				r = opRes{St: "skip"}
+				break
+			}
+			s.state = ""
+			ch := s.top.Commit(iface)
+			wait := hangDur
+			if k.Kind == "chan" {
+				wait = 30 * time.Millisecond
+			}
+			if waitCh(ch, wait) {
+				r = opRes{St: "ok"}
+			} else if k.Kind == "chan" {
+				s.commitCh = ch
+				r = opRes{St: "pending"}
+			} else {
+				r = opRes{St: "hang"}
+			}
+		case "cw": // wait again for a pending OutputChan commit
+			s := senders[int(op[1].(float64))]
+			if s.commitCh == nil {
+				r = opRes{St: "skip"}
+			} else if waitCh(s.commitCh, 30*time.Millisecond) {
+				s.commitCh = nil
+				r = opRes{St: "ok"}
+			} else {
+				r = opRes{St: "pending"}
+			}
+		case "a":
+			s := senders[int(op[1].(float64))]
+			if s.commitCh != nil || (k.Kind == "relaxed" && s.state == "written") {
+				r = opRes{St: "skip"} // cannot abort a committing OutputChan / a relaxed section that has sent
+				break
+			}
+			r = withDeadline(func() opRes {
+				s.abortNow(iface)
+				return opRes{St: "ok"}
+			})
+		case "p": // plain Go producer
+			select {
+			case goCh <- tla.MakeNumber(int32(op[2].(float64))):
+				r = opRes{St: "ok"}
+			default:
+				r = opRes{St: "full"}
+			}
+		case "r":
+			r = withDeadline(func() opRes {
+				leaf, err := recv.leaf()
+				if err != nil {
+					return opRes{St: "err:" + err.Error()}
+				}
+				v, err := leaf.ReadValue(iface)
+				if err == nil {
+					n := msgNum(v)
+					if s, ok := n.(string); ok && s == "bool:true" {
+						return opRes{St: "tick"}
+					}
+					return opRes{St: "ok", V: n}
+				}
+				if isAbort(err) {
+					return opRes{St: "abort"}
+				}
+				return opRes{St: "err:" + err.Error()}
+			})
+		case "rc":
+			if ch := recv.top.Commit(iface); ch != nil {
+				<-ch
+			}
+			r = opRes{St: "ok"}
+		case "ra":
+			if ch := recv.top.Abort(iface); ch != nil {
+				<-ch
+			}
+			r = opRes{St: "ok"}
+		case "len":
+			r = withDeadline(func() opRes {
+				sub, err := lenRes.Index(iface, idx)
+				if err != nil {
+					return opRes{St: "err:" + err.Error()}
+				}
+				v, err := sub.ReadValue(iface)
+				if err != nil {
+					return opRes{St: "err:" + err.Error()}
+				}
+				if ch := lenRes.Commit(iface); ch != nil {
+					<-ch
+				}
+				return opRes{St: "ok", V: int(v.StripVClock().AsNumber())}
+			})
+		case "waitq": // wait until the receive queue holds n records (hand-over from the handlers is asynchronous)
+			want := int(op[1].(float64))
+			deadline := time.Now().Add(2 * time.Second)
+			r = opRes{St: "timeout"}
+			for time.Now().Before(deadline) {
+				var n int
+				if k.Kind == "chan" {
+					n = len(goCh)
+				} else {
+					n, _ = resources.VerifC06Queued(recvLeaf)
+				}
+				if n == want {
+					r = opRes{St: "ok", V: n}
+					break
+				}
+				r.V = n
+				time.Sleep(200 * time.Microsecond)
+			}
+		case "quiesce":
+			// handlers that are about to block in `msgChannel <- batch` offer no condition to wait on
+			// (len(msgChannel) is already at its capacity): give them a moment to get there
+			time.Sleep(3 * time.Millisecond)
+			r = opRes{St: "ok"}
+		default:
+			r = opRes{St: "err:bad op"}
 		}
-		sres.Commit(iface)
-		sent = append(sent, i)
-	}
-	fmt.Println("sent", len(sent), "failedAt", failedAt)
-	time.Sleep(100 * time.Millisecond)
-	var got []int
-	for {
-		v, err := rres.ReadValue(iface)
-		if err != nil {
-			break
+		if r.St == "hang" {
+			hung = true
 		}
-		rres.Commit(iface)
-		got = append(got, int(v.StripVClock().ApplyFunction(tla.MakeNumber(1)).AsNumber()))
+		out.Res = append(out.Res, r)
 	}
-	fmt.Println("got ", got)
-	fmt.Println("sent", sent)
+	return
+}
+
+func main() {
+	in := bufio.NewReaderSize(os.Stdin, 1<<20)
+	outw := bufio.NewWriter(os.Stdout)
+	defer outw.Flush()
+	dec := json.NewDecoder(in)
+	enc := json.NewEncoder(outw)
+	hungCases := 0
+	for dec.More() {
+		var k kase
+		if err := dec.Decode(&k); err != nil {
+			fmt.Fprintln(os.Stderr, "bad case:", err)
+			os.Exit(2)
+		}
+		if hungCases >= 5 {
+			enc.Encode(result{ID: k.ID, Err: "not run: 5 earlier cases blocked forever"})
+			continue
+		}
+		r := runCase(k)
+		for _, x := range r.Res {
+			if x.St == "hang" {
+				hungCases++
+				break
+			}
+		}
+		enc.Encode(r)
+		outw.Flush()
+	}
 }
